@@ -517,6 +517,52 @@ example : ∃ b, (closestInt exC exBasic ⟨10, 0, 0⟩).q = some b ∧ Intersec
   obtain ⟨b, hb, _, h⟩ := closest_complete exC exBasic ⟨10, 0, 0⟩ exI 0 (by norm_num [exC]) (by norm_num [exC]) exContract
   exact ⟨b, hb, h exA (Or.inl rfl) (by rw [dist_real]; norm_num [exA, exC])⟩
 
+/-! ## Intersect: one contract for the three searches -/
+
+/-- the contract is monotone in the capture radius -/
+theorem contract_mono {C : Consts ℝ} {basic : XP ℝ → XP ℝ} {I : XP ℝ → Prop} {ε ρ ρ' : ℝ} (h : ρ' ≤ ρ)
+    (K : Contract C basic I ε ρ) : Contract C basic I ε ρ' :=
+  ⟨K.c0, K.snd, K.sep, fun a ha s hs => K.cap a ha s (le_trans hs h)⟩
+
+/-- what the constructor's sanity check (`ctorOk`, the model of `if (!(_d1 < _d3 && _d2 < _d3 && _d2 < 2 * _t1)) throw`) says -/
+theorem ctor_check_spec (t1 d1 d2 d3 : ℝ) : ctorOk t1 d1 d2 d3 = true ↔ d1 < d3 ∧ d2 < d3 ∧ d2 < 2 * t1 := by
+  simp [ctorOk, ltb_real, two_real, and_assoc]
+
+/--
+**One contract, three searches.**  On an object that passed the constructor's check, a kernel `Basic` that satisfies the
+contract with capture radius `_d3` (= `_t4 − δ`: every start within `_d3` of an intersection converges to it; never reports
+coincidence; answers within `ε ≤ δ` of intersections; intersections `2 _t1` apart; `2 ε + δ < 2 _t1`) makes
+
+* `Closest` return a point within `ε` of an intersection such that no intersection within `2 _d1` of `p0` is closer by more
+  than `ε + δ`,
+* `Next` return a point at most `ε` farther from the origin than any intersection `a` outside the origin class with
+  `_d2 ≤ |a|₁ ≤ 3 _d2`,
+* `All(maxdist)` list (within `ε`) every intersection with `Dist(a, p0) + ε ≤ maxdist`, for every number of tiles `m ≥ 1`
+  with `maxdist + δ ≤ m _d3` — in particular for `m = ⌈(maxdist + δ) / _d3⌉`, the value the code uses.
+
+This is the covering argument of the class in one statement: the tile radii `_d1`, `_d2`, `maxdistx / m` never exceed the
+capture radius because the constructor checked `_d1 < _d3`, `_d2 < _d3` and the code chooses `m` accordingly.
+-/
+theorem intersect_complete_of_capture (C : Consts ℝ) (basic : XP ℝ → XP ℝ) (I : XP ℝ → Prop) (ε : ℝ)
+    (hctor : ctorOk C.t1 C.d1 C.d2 C.d3 = true) (hδ : 0 ≤ C.delta) (hε : 0 ≤ ε) (hεδ : ε ≤ C.delta)
+    (hnum : 2 * ε + C.delta < 2 * C.t1) (K : Contract C basic I ε C.d3) :
+    (∀ p0, ∃ b, (closestInt C basic p0).q = some b ∧ (∃ a, I a ∧ dist b a ≤ ε) ∧
+        ∀ a, I a → dist a p0 ≤ 2 * C.d1 → dist b p0 ≤ dist a p0 + ε + C.delta) ∧
+    (∀ conj big a, I a → C.delta + ε < dist0 a → C.d2 ≤ dist0 a → dist0 a ≤ 3 * C.d2 →
+        dist0 (nextInt C basic conj big).q ≤ dist0 a + ε) ∧
+    (∀ conj2 maxdist p0 (m fuel : Nat), 1 ≤ m → 0 ≤ maxdist → maxdist + C.delta ≤ m * C.d3 →
+        ∀ a, I a → dist a p0 + ε ≤ maxdist → ∃ e ∈ (allInt0 C basic conj2 maxdist p0 m fuel).res, dist e a ≤ ε) := by
+  obtain ⟨h1, h2, _⟩ := (ctor_check_spec _ _ _ _).mp hctor
+  refine ⟨fun p0 => closest_complete C basic p0 I ε hδ hεδ (contract_mono h1.le K),
+    fun conj big => next_complete C basic conj big I ε hεδ (contract_mono h2.le K), ?_⟩
+  intro conj2 maxdist p0 m fuel hm hmax hmd
+  have hmpos : (0 : ℝ) < m := by exact_mod_cast hm
+  have : (maxdist + C.delta) / m ≤ C.d3 := by rw [div_le_iff₀ hmpos]; linarith
+  exact all_complete_partial C basic conj2 maxdist p0 m fuel I ε hm hmax hδ hε hεδ hnum (contract_mono this K)
+
+/-- non-vacuity: the two-intersection example satisfies all hypotheses -/
+example : ctorOk exC.t1 20 25 exC.d3 = true := by simp [ctor_check_spec, exC]; norm_num
+
 /-! ## nearest neighbour: Save / Load -/
 open GeoVerif.VPTree
 
